@@ -1,7 +1,8 @@
 import Xrl.Lemmas.Meets
 import Xrl.Lemmas.Loops
 import Xrl.Spec.Groups
-import Xrl.Gen.Fns
+import Xrl.Gen.F_fluor_lines
+import Xrl.Gen.F_radrate
 /-!
 # C10 — grouped line energies and rates are the stated averages of their member lines
 (and the single-line branches of `LineEnergy` / `RadRate`, which complete C01)
